@@ -105,6 +105,9 @@ func checkC12(w *World, r *Report) {
 		}
 	})
 
+	r.Rule("R12.5", "no schema-construction error is forgotten: in package schema every error result bound to a variable is examined", 1)
+	r.guard("R12.5", func() { errRule(w, r, "R12.5", []string{"schema"}, nil) })
+
 	r.Rule("R12.2", "re-homing: a node's defining tree is set only by the constructor; Clone copies it, sets the using tree from its argument and clones every child with the same argument; the module handed to Clone comes from the uses statement's side (the using module, or the submodule the uses is written in), never from the grouping's", 5)
 	r.guard("R12.2", func() {
 		pp := w.Pkg("parse")
